@@ -11,6 +11,7 @@ def model_check(ctx, quick):
     vlib.mc(ctx, "LifecycleQT", "MC_LifecycleQT.cfg", timeout=1200)
     vlib.mc(ctx, "LifecycleT", "MC_LifecycleT_TRUE.cfg", timeout=1200)
     vlib.mc(ctx, "LifecycleT", "MC_LifecycleT_FALSE.cfg", timeout=1200)
+    vlib.mc(ctx, "LifecycleCL", "MC_LifecycleCL.cfg", timeout=1200)
     # the named deviation must be reproduced by the model (documented design counterexample)
     r = vlib.tlc(ctx, "LifecycleQT", "MC_LifecycleQT_ignore.cfg", timeout=600)
     ctx.cov["named_deviation_InputFirstSeenTearingDown_in_model"] = (r.inv == "FinBeforeOut")
